@@ -17,7 +17,10 @@ import (
 	"fmt"
 	"math/big"
 	"reflect"
+	"strings"
 	"testing"
+	"time"
+	"unicode/utf8"
 
 	ledger "github.com/formancehq/ledger/internal"
 	"github.com/formancehq/ledger/verifharness/evid"
@@ -354,6 +357,68 @@ func TestC13(t *testing.T) {
 				}
 			}
 			prev, prevAPI, prevStore = cl, api, st
+		}
+	})
+}
+
+// FuzzC13 drives the same round-trip oracle from coverage-guided bytes: the
+// fuzzer chooses kind, strings, amounts and instants; the entry is still built
+// with the code's own constructors (the property is about entries the system writes).
+func FuzzC13(f *testing.F) {
+	f.Add(uint8(0), "k", "v", uint64(1), int64(946684800), uint32(0), "ref")
+	f.Add(uint8(3), "<b>", "é\"\\", uint64(1<<63), int64(253402300799), uint32(999999999), "")
+	f.Add(uint8(6), "", " ", uint64(0), int64(-62135596800), uint32(1), "x")
+	f.Fuzz(func(t *testing.T, kind uint8, s1, s2 string, n uint64, sec int64, nsec uint32, ref string) {
+		if strings.ContainsRune(s1+s2+ref, 0) || !utf8.ValidString(s1) || !utf8.ValidString(s2) || !utf8.ValidString(ref) || len(s1) > 255 {
+			return
+		}
+		if sec < -62135596800 || sec > 253402300000 {
+			return
+		}
+		at := ledger.Time{Time: time.Unix(sec, int64(nsec%1000000000)).UTC().Round(ledger.DatePrecision)}
+		amt := new(big.Int).Lsh(new(big.Int).SetUint64(n), uint(kind%3)*40)
+		tx := ledger.NewTransaction().WithPostings(ledger.NewPosting("world", "a:b", "USD/2", amt)).
+			WithMetadata(metadata.Metadata{s1: s2}).WithDate(at).WithID(new(big.Int).SetUint64(n)).WithReference(ref)
+		var l *ledger.Log
+		switch kind % 7 {
+		case 0:
+			l = ledger.NewTransactionLogWithDate(tx, nil, at)
+		case 1:
+			l = ledger.NewTransactionLogWithDate(tx, map[string]metadata.Metadata{"a:b": {s1: s2}}, at)
+		case 2:
+			l = ledger.NewRevertedTransactionLog(at, new(big.Int).SetUint64(n), tx)
+		case 3:
+			l = ledger.NewSetMetadataOnAccountLog(at, "a:b", metadata.Metadata{s1: s2})
+		case 4:
+			l = ledger.NewSetMetadataOnTransactionLog(at, new(big.Int).SetUint64(n), metadata.Metadata{s1: s2})
+		case 5:
+			l = ledger.NewDeleteMetadataLog(at, ledger.DeleteMetadataLogPayload{TargetType: ledger.MetaTargetTypeAccount, TargetID: "a:b", Key: s1})
+		default:
+			l = ledger.NewDeleteMetadataLog(at, ledger.DeleteMetadataLogPayload{TargetType: ledger.MetaTargetTypeTransaction, TargetID: new(big.Int).SetUint64(n), Key: s1})
+		}
+		if kind&8 != 0 {
+			l = l.WithIdempotencyKey(s1)
+		}
+		prev := ledger.NewSetMetadataOnAccountLog(at, "p", metadata.Metadata{}).ChainLog(nil)
+		cl := l.ChainLog(prev)
+		api, b1, b2, err := c13APIRoundTrip(cl)
+		if err != nil {
+			t.Fatalf("VERIF-VIOLATION property=C13 signature=C13/fuzz/api-decode\n%v\n%s", err, b1)
+		}
+		if !bytes.Equal(b1, b2) {
+			t.Fatalf("VERIF-VIOLATION property=C13 signature=C13/fuzz/api-changed\n%s\n%s", b1, b2)
+		}
+		st, err := c13StoreRoundTrip(cl)
+		if err != nil {
+			t.Fatalf("VERIF-VIOLATION property=C13 signature=C13/fuzz/store-decode\n%v\n%s", err, b1)
+		}
+		for name, rt := range map[string]*ledger.ChainedLog{"api": api, "store": st} {
+			if d := c13SameTyped(cl, rt); d != "" {
+				t.Fatalf("VERIF-VIOLATION property=C13 signature=C13/fuzz/%s-field\n%s\n%s", name, d, b1)
+			}
+			if re := rt.Log.ChainLog(prev); !bytes.Equal(re.Hash, cl.Hash) {
+				t.Fatalf("VERIF-VIOLATION property=C13 signature=C13/fuzz/%s-rehash\n%s", name, b1)
+			}
 		}
 	})
 }
